@@ -8,6 +8,14 @@ CLAIMS = {
   "text": "Bounded model checking of the real ScalarFunction::execute entry points for AND/OR (2-input BinaryExecutor path; 3-input UniformExecutor path in thorough), NOT, IS [NOT] NULL/TRUE/FALSE, the six comparison operators and IS [NOT] DISTINCT FROM on integer columns: for every value of the operands (full width, symbolic) and every NULL pattern of a one-row batch (each pattern its own harness) the output row equals the Kleene / SQL definition. Known finding F8 (NULL AND false, NULL OR true) is isolated in its own harnesses.",
   "note": "Outside: float NaN comparison semantics, strings, date/time, CASE, overload resolution, multi-row batches and dictionary/constant input formats (thorough adds some). NULL input rows use the AllInvalid validity representation (bitmap inputs to the binary executor exceed 14 GB in CBMC).",
   "design": "§3 C05"},
+ "C10": {
+  "text": "Bounded model checking of the page-level Parquet decoders against reference decoders written from the format definition: LSB-first bit unpacking (incl. the carried bit position), ULEB128, zigzag (bijection over all 64-bit values), the RLE/bit-packing hybrid decoder step by step from an arbitrary valid decoder state (RLE step, literal step at every bit position, run-header step) and DELTA_BINARY_PACKED value reconstruction with wrapping arithmetic. Each obligation includes resume invariance: decoding n values in one call = decoding k then n-k (a run / miniblock continued in the next output batch). Found and fixed: the delta decoder repeated a value at the start of every continued read.",
+  "note": "Sizes (output length, split point, run length, bit width) are concrete per harness, data bytes / values / bit positions symbolic (symbolic sizes make CBMC merge infeasible error returns into the decoder state). Outside: thrift footer and page headers, compression codecs, dictionary pages, DELTA_LENGTH/DELTA_BYTE_ARRAY, BYTE_STREAM_SPLIT, PLAIN with definition levels, column reader across pages/row groups, metadata table functions.",
+  "design": "§3 C10"},
+ "C19": {
+  "text": "Bounded model checking of the same decoder layer with NO validity assumption on the bytes: arbitrary / truncated buffers, arbitrary bit width bytes and arbitrary delta headers must produce Ok or Err - no panic, no division by zero, no read past the buffer (Kani's pointer checks + the cursor's debug assertions). Found and fixed: mask-table index out of bounds for widths > 64, reads past the end in bit_unpack, read_unsigned_vlq and the RLE run value, division by zero on a zero miniblock count.",
+  "note": "Outside: thrift compact-protocol decoder, codecs, page_reader size arithmetic, whole-file truncation, CSV. Unbounded `vec![0; mini_block_count]` in the delta header (allocation bounded only by the varint) is documented in DESIGN.md as an open finding not expressible as a Kani check within bounds.",
+  "design": "§3 C19"},
  "C12": {
   "text": "Bounded model checking of Add/Sub/Mul/Div/Rem/Negate::execute for every integer width through the real executor: in the representable region the output equals the exact mathematical result (oracle: std checked_*); in the unrepresentable region (overflow, zero divisor) the statement must return an error. Integer->decimal and decimal->decimal rescaling exactness/precision (shared with C13). The unrepresentable region fails today for every operator (known findings F1/F2: raw operators panic or wrap) and is kept in separate harnesses so the exact region stays a live regression check.",
   "note": "Bounds: one-row arrays; full-width operands except div/rem exact for >=32-bit (|a|,|b| < 2^15) and mul err for >=64-bit (|b| < 2^8), stated in evidence. Outside: SUM/AVG states (C07), decimal arithmetic result-type rules (C18), float arithmetic, abs/round/ceil/floor, gcd/lcm/factorial.",
